@@ -17,7 +17,9 @@ import (
 	"time"
 )
 
-const repoDir = "/repo"
+// repoDir is /repo; VERIF_REPO exists for harness maintenance only (running the checks against a
+// scratch worktree that carries a deliberate defect while other runs read /repo)
+var repoDir = envOr("VERIF_REPO", "/repo")
 
 var verifDir = envOr("VERIF_DIR", "/verif")
 
